@@ -184,6 +184,11 @@ func genMixedRequest(r *core.Rand, id int, limit int, allowFaults bool) ReqSpec 
 			}
 		}
 	}
+	if allowFaults && hasOp(h, "duplex") && sp.Fault.Kind == "" && r.Chance(1, 2) {
+		// both goroutines of the handler get to call the stream after the
+		// context ended
+		sp.Fault.Kind = "abort"
+	}
 	if (sp.Proto == "http" || strings.HasPrefix(sp.Proto, "grpcweb")) && r.Chance(1, 2) {
 		sp.Fault.Err = "ueof"
 	}
